@@ -38,6 +38,13 @@ CLAIMS.update({
    tech="TLA+ reference definitions evaluated by TLC as oracle in both directions; TLC model checking of the generator model; TLC validation of a recorded concurrent run", ref="DESIGN.md section 7 C19"),
 })
 
+CLAIMS.update({
+ "C20": dict(cat="model_checking",
+   text="Handshake.tla transcribes the documented TLS table and the property's verification rule (TLC checks they agree and form a function) and gives, for every configuration row, the required effective result (error, verify, server name, caller's config untouched) and the required outcome of real handshakes; HandshakeAuth.tla is the authentication state machine (invariants OnlyApproved, PlainFirst, NoneIsRefused, NothingAfterUnapproved, SessionIsAuthenticated). TLC enumerates the complete table (1890 rows) and every maximal behaviour of the machine; every row is executed on the real connConfig/setupTLSConfig/tlsConfigForAddr including real crypto/tls handshakes against right/wrong certificates, every behaviour is replayed as a real Session against the scripted node with the AUTH_RESPONSE bytes captured, and TLC judges the recorded vectors and traces.",
+   note="crypto/tls and x509 are trusted for the verification itself (the property is about which configuration is used); certificates are generated at run time; the complete finite table and machine are enumerated (exhaustive), credentials are a bounded alphabet.",
+   tech="TLA+ table/state machine enumerated by TLC, every row and behaviour replayed into the real code, recorded vectors and traces judged by TLC", ref="DESIGN.md section 7 C20"),
+})
+
 NA = {}
 DEFAULT_NA = "machinery under construction in this round; not yet claimed"
 
